@@ -133,8 +133,12 @@ def extract(srcroot, gen_dir=None):
         allf += fs
         for g in global_vars(src, fs):
             gvars.add(g)
-        for m in re.finditer(r"\bmutable\s+[\w:<>]+\s+(\w+)", src):
-            mutables.append(m.group(1))
+        # `mutable` data members (every declarator of the declaration; synchronisation primitives are not data)
+        for m in re.finditer(r"\bmutable\s+((?:[\w:]|<[^;{}]*>|\s|\*|&)+?)\s*\b(\w+(?:\s*(?:\[[^\]]*\]|=[^,;]*)?\s*,\s*\w+)*)\s*(?:\[[^\]]*\]|=[^;]*|\{[^;]*\})?\s*;", src):
+            if re.search(r"\b(?:std::)?(?:mutex|recursive_mutex|shared_mutex|once_flag|atomic\w*|condition_variable)\b", m.group(1)):
+                continue
+            for nm in re.split(r"\s*,\s*", m.group(2)):
+                mutables.append(re.match(r"\w+", nm).group(0))
     # static locals
     SYNC_TYPES = re.compile(r"\b(?:std::)?(?:mutex|recursive_mutex|shared_mutex|once_flag|atomic\w*|condition_variable)\b")
     objects = set()      # shared names of class type: a non-const member call on them may write
@@ -146,6 +150,7 @@ def extract(srcroot, gen_dir=None):
             if not re.match(r"\s*(?:unsigned\s+|long\s+)*(?:double|int|float|bool|size_t|char)\s*$", m.group(1)):
                 objects.add(m.group(2))
     shared = sorted(gvars | set(n for _, n in statics) | set(mutables))
+    mutable_set = set(mutables)
     simple_names = set(f["simple"] for f in allf)
     # per function: writes, reads, calls
     for f in allf:
@@ -160,6 +165,14 @@ def extract(srcroot, gen_dir=None):
             if g in objects:
                 # a member call on a shared object of class type (its constness is not visible lexically): counted as a write
                 for m in re.finditer(r"\b%s\b\s*(?:\.|->)\s*\w+\s*\(" % re.escape(g), body):
+                    if any(a <= m.start() <= b for a, b in spans):
+                        f["gwrites"].add(g)
+                    else:
+                        f["writes"].add(g)
+            if g in mutable_set:
+                # a `mutable` member exists to be written from const member functions: a member call on it, a call of it, its address or
+                # its being handed to another function counts as a write (the callee's parameter constness is not visible lexically)
+                for m in re.finditer(r"\b%s\b\s*(?:(?:\.|->)\s*\w+\s*\(|\()|&\s*\b%s\b|[(,]\s*\b%s\b\s*[,)]" % (re.escape(g), re.escape(g), re.escape(g)), body):
                     if any(a <= m.start() <= b for a, b in spans):
                         f["gwrites"].add(g)
                     else:
